@@ -172,7 +172,7 @@ def make_cases(tier, seed):
                         xv = [rnd.choice([-3.0, 0.5, 2.25, 17.0, 0.0]) for _ in range(dim)]
                         cases.append((cls, m, nn, o, dim, label, skw, xv, rnd.random() < 0.5, rnd.random() < 0.5, None))
     for m in methods5 + ['central2']:
-        for o in [2, 4, 6]:
+        for o in [2, 4, 6, 8]:
             for dim in dims:
                 for label, skw in step_variants(rnd, m, quick)[:(2 if quick else 4)]:
                     xv = [rnd.choice([-3.0, 0.5, 2.25, 17.0, 0.0]) for _ in range(dim)]
